@@ -9,7 +9,9 @@ open Lean AcmedVerif AcmedVerif.Http
 namespace Drv
 
 /-! JSON → model inputs.
-answer  = {"delivered": b, "ok2xx": b, "nonce": null | "invalid" | <id>, "body": B}
+answer  = {"delivered": b, "ok2xx": b, "nonce": null | "invalid" | <id>, "body": B, "redir": R}
+R       = absent | null (no redirection, or a 3xx answer without Location) | "bad" (Location unusable)
+          | {"to": <url id>, "keep": b} (3xx with a Location resolving to that URL; keep: 307 / 308)
 B       = "jsonOther" | "notJson" | "unreadable" | {"type": "<the type member, verbatim>"} | {"payload": n}
 nonces are interned by the harness (natural numbers). -/
 
@@ -37,8 +39,17 @@ def httpBody (j : Json) : Body :=
       | .ok p => .payload (natOf p)
       | _ => .notJson
 
+def httpRedir (j : Json) : Redir :=
+  match j with
+  | .str "bad" => .bad
+  | x =>
+    match x.getObjVal? "to" with
+    | .ok u => .to (natOf u) (bool x "keep")
+    | _ => .no
+
 def httpAnswer (j : Json) : Answer :=
-  ⟨bool j "delivered", bool j "ok2xx", httpNonceHdr (get j "nonce"), httpBody (get j "body")⟩
+  ⟨bool j "delivered", bool j "ok2xx", httpNonceHdr (get j "nonce"), httpBody (get j "body"),
+    httpRedir (get j "redir")⟩
 
 def httpOptJson : Option Nat → Json
   | none => Json.null
@@ -58,6 +69,8 @@ def httpErrName : Err → String
   | .nonceFetch e => "nonceFetch:" ++ httpErrName e
   | .pollDecode => "pollDecode"
   | .pollExhausted => "pollExhausted"
+  | .badLocation => "badLocation"
+  | .tooManyRedirects => "tooManyRedirects"
 
 def httpResName : Result → String
   | .ok _ => "ok"
